@@ -81,6 +81,7 @@ func NewDataset(store *Store, id string, internalID uint32, subjectIdentifier st
 
 // StartFullSync Indicates that a full sync is starting
 func (ds *Dataset) StartFullSync() error {
+	verifhook.Access(ds, "Dataset.fullSyncState", true)
 	if ds.fullSyncStarted {
 		if ds.fullSyncLease != nil && ds.fullSyncLease.cancel != nil {
 			ds.fullSyncLease.cancel()
@@ -106,6 +107,7 @@ func (ds *Dataset) StartFullSyncWithLease(fullSyncID string) error {
 }
 
 func (ds *Dataset) RefreshFullSyncLease(fullSyncID string) error {
+	verifhook.Access(ds, "Dataset.fullSyncState", true)
 	if ds.fullSyncStarted {
 		if fullSyncID == ds.fullSyncID {
 			// cancel previous lease
@@ -127,7 +129,9 @@ func (ds *Dataset) RefreshFullSyncLease(fullSyncID string) error {
 				endTime, ok := ctx.Deadline()
 				// time out was the cause
 				now := time.Now()
+				verifhook.Access(ds, "Dataset.fullSyncState", false)
 				if ok && now.After(endTime) && ds.fullSyncID == currentFsID {
+					verifhook.Access(ds, "Dataset.fullSyncState", true)
 					ds.fullSyncStarted = false
 					ds.fullSyncSeen = make(map[uint64]int)
 					ds.fullSyncID = ""
@@ -147,6 +151,7 @@ func (ds *Dataset) RefreshFullSyncLease(fullSyncID string) error {
 }
 
 func (ds *Dataset) ReleaseFullSyncLease(fullSyncID string) error {
+	verifhook.Access(ds, "Dataset.fullSyncState", false)
 	if ds.fullSyncLease == nil {
 		return errors.New("no active fullsync lease found, can't complete")
 	}
@@ -159,7 +164,9 @@ func (ds *Dataset) ReleaseFullSyncLease(fullSyncID string) error {
 
 // CompleteFullSync Full sync completed - mark unseen entities as deleted
 func (ds *Dataset) CompleteFullSync(ctx context.Context) error {
+	verifhook.Access(ds, "Dataset.fullSyncState", false)
 	defer func() {
+		verifhook.Access(ds, "Dataset.fullSyncState", true)
 		ds.fullSyncStarted = false
 		ds.fullSyncSeen = make(map[uint64]int) // release sync state
 		ds.fullSyncLease = nil                 // unset lease
@@ -329,7 +336,9 @@ func (ds *Dataset) StoreEntitiesWithTransaction(
 		e.InternalID = rid // set internal id on entity
 		e.Recorded = uint64(txnTime)
 
+		verifhook.Access(ds, "Dataset.fullSyncState", false)
 		if ds.fullSyncStarted {
+			verifhook.Access(ds, "Dataset.fullSyncState", true)
 			ds.fullSyncSeen[e.InternalID] = 1
 		}
 
